@@ -60,7 +60,10 @@ def run(ctx):
         begun = {e["sid"]: e for e in evs if e["ev"] == "begin"}
         s = begun[hung[-1]["sid"]]
         # reproduce: the same session alone in a fresh process
-        evs2, rc2, _ = run_harness(ctx, "pub", "TestVerifPaging", {"sessions": [{"pages": s["pages"], "sizes": s["sizes"]}] * 4, "random": 0},
+        again = {"pages": s["pages"], "sizes": s["sizes"], "embedded_again": s.get("embedded", False)}
+        if "style" in hung[-1]:
+            again["style"] = hung[-1]["style"]
+        evs2, rc2, _ = run_harness(ctx, "pub", "TestVerifPaging", {"sessions": [again] * 6, "random": 0},
                                    timeout=300, allow_fail=True, name="paging-hang-repro")
         if rc2 != 0 and any(e["ev"] == "hang" for e in evs2):
             path = vlib.save_replay(ctx.pid, "hang-s%d" % s["sid"], s)
